@@ -10,11 +10,10 @@ observation, satisfies the clause for every state, caller, operation and oracle 
 clause that fires on the code is a disagreement with the statement *and* with the model, never
 an artefact of the clause.
 
-Proved here: C01 `denied_noeffect`, `effect_only_if_granted`; C02 `reads` (and `reads_total`, in
-Properties/C02.lean); C04 `mem_eq_disk`; C06 `before_effect`, `fail_closed`, `unchanged_silent`;
-C09 `cond` (under the store invariant).  Not yet proved of the model: C01 `changes_only_granted`,
-`list_exact`; C02 `inv`, `failed_noop`, `frame`, `put`, `bytes_stable`, `active`,
-`delete_version`; C04 `savefail_noop`, `gen_iff_saved`; C06 `recorded`; C18 `acknowledged_bytes_kept`
+Proved here: C01 `denied_noeffect`, `effect_only_if_granted`, `list_exact`; C02 `reads`, `frame` (and
+`reads_total`, `failed_noop` in Properties/C02.lean); C04 `mem_eq_disk`, `savefail_noop`; C06 `before_effect`, `fail_closed`, `unchanged_silent`;
+C09 `cond` (under the store invariant).  Not yet proved of the model: C01 `changes_only_granted`; C02 `inv`, `put`, `bytes_stable`, `active`,
+`delete_version`; C04 `gen_iff_saved`; C06 `recorded`; C18 `acknowledged_bytes_kept`
 (their content is stated as theorems about the model in the property files, in other words).
 -/
 namespace Setec.MonSound
@@ -107,5 +106,71 @@ theorem c09_cond_sound (kv : KV) (c : Caller) (op : Op) (aok sok : Bool) (h : In
           · cases aok <;> simp [hv, h2, Res.disclosesAnything]
     · simp [hg]
   | _ => simp [c09_cond, obsOf]
+
+/-- a listing walks the names in order and reports each secret's versions and active version -/
+theorem list_items (kv : KV) (g : String → Bool) (l : List (String × Secret))
+    (hl : ∀ p ∈ l, kv.secrets[p.1]? = some p.2) :
+    (((l.map (·.1)).filter g).filterMap fun n => match info kv n with
+        | .ok (vs, a) => some (n, vs, a)
+        | .error _ => none) =
+    (l.filter (fun p => g p.1)).map (fun p => (p.1, p.2.versions.keys, p.2.active)) := by
+  induction l with
+  | nil => rfl
+  | cons p rest ih =>
+    have hp := hl p (List.mem_cons_self)
+    have ih' := ih (fun q hq => hl q (List.mem_cons_of_mem _ hq))
+    simp only [List.map_cons, List.filter_cons]
+    by_cases hg : g p.1 = true
+    · have hinfo : info kv p.1 = .ok (p.2.versions.keys, p.2.active) := by simp [KV.info, hp]
+      simp only [hg, if_true, List.filterMap_cons, List.map_cons, hinfo]
+      rw [ih']
+    · simp only [hg, Bool.false_eq_true, if_false]
+      exact ih'
+
+
+theorem c01_list_exact_sound (kv : KV) (c : Caller) (op : Op) (aok sok : Bool) :
+    c01_list_exact (obsOf kv c op aok sok) = true := by
+  cases op with
+  | list =>
+    cases aok with
+    | false => simp [c01_list_exact, obsOf, step, Res.isError]
+    | true =>
+      simp only [c01_list_exact, obsOf, step, allowed, granted, Cfg.std, KV.list]
+      have := list_items kv (fun n => Acl.allow true c.rules "info" n.toList) kv.secrets.toList
+        (fun p hp => (ExtTreeMap.mem_toList_iff_getElem?_eq_some (t := kv.secrets) (k := p.1) (v := p.2)).mp hp)
+      simp only [ExtTreeMap.map_fst_toList_eq_keys] at this
+      simp
+      exact this
+  | _ => simp [c01_list_exact, obsOf]
+
+
+theorem c04_savefail_noop_sound (kv : KV) (c : Caller) (op : Op) (aok sok : Bool) (h : Inv kv) :
+    c04_savefail_noop (obsOf kv c op aok sok) = true := by
+  cases sok with
+  | true => simp [c04_savefail_noop, obsOf]
+  | false => simp [c04_savefail_noop, obsOf, step_savefail Cfg.std kv c op aok h]
+
+theorem opName_eq_nameOf (op : Op) : opName op = nameOf op := by cases op <;> rfl
+
+theorem optSecEq_self (s : Secret) : optSecEq (some s) (some s) = true := by simp [optSecEq, secEq]
+
+theorem c02_frame_sound (kv : KV) (c : Caller) (op : Op) (aok sok : Bool) (h : Inv kv) :
+    c02_frame (obsOf kv c op aok sok) = true := by
+  have hf : ∀ m, m ≠ nameOf op → (step Cfg.std kv c op aok sok).1.secrets[m]? = kv.secrets[m]? := fun m hm =>
+    step_frame Cfg.std kv c op aok sok m h (by rw [opName_eq_nameOf]; exact fun e => hm e.symm)
+  simp only [c02_frame, obsOf, Bool.and_eq_true, List.all_eq_true, Bool.or_eq_true, beq_iff_eq]
+  constructor
+  · intro p hp
+    by_cases hm : p.1 = nameOf op
+    · exact Or.inl hm
+    · right
+      have hs := (ExtTreeMap.mem_toList_iff_getElem?_eq_some (t := kv.secrets) (k := p.1) (v := p.2)).mp hp
+      rw [hf p.1 hm, hs]; exact optSecEq_self p.2
+  · intro p hp
+    by_cases hm : p.1 = nameOf op
+    · exact Or.inl hm
+    · right
+      have hs := (ExtTreeMap.mem_toList_iff_getElem?_eq_some (t := (step Cfg.std kv c op aok sok).1.secrets) (k := p.1) (v := p.2)).mp hp
+      rw [← hf p.1 hm, hs]; exact optSecEq_self p.2
 
 end Setec.MonSound
